@@ -183,27 +183,65 @@ func evalC13l(c c13lCase) (f *Failure, nontrivial bool) {
 			code, err := post(append([]byte{'4'}, payload...))
 			settle(2 * time.Second)
 			verdict(fmt.Sprintf("POST (%s, status %d, err %v)", strings.TrimPrefix(c.Path, "c2s-polling-"), code, err))
-		case "c2s-websocket":
+		case "c2s-websocket", "c2s-upgraded-websocket":
 			ctx := context.Background()
-			conn, _, err := websocket.Dial(ctx, "ws://x/engine.io/?EIO=4&transport=websocket", &websocket.DialOptions{HTTPClient: hc})
-			if err != nil {
-				res = fail("rig-connect", "websocket dial: "+err.Error())
-				return
+			var conn *websocket.Conn
+			if c.Path == "c2s-websocket" {
+				var err error
+				conn, _, err = websocket.Dial(ctx, "ws://x/engine.io/?EIO=4&transport=websocket", &websocket.DialOptions{HTTPClient: hc})
+				if err != nil {
+					res = fail("rig-connect", "websocket dial: "+err.Error())
+					return
+				}
+				conn.SetReadLimit(-1)
+				cleanup = append(cleanup, func() { conn.CloseNow() })
+				_, b, err := conn.Read(ctx)
+				var open struct {
+					MaxPayload int64 `json:"maxPayload"`
+				}
+				if err != nil || len(b) < 2 || json.Unmarshal(b[1:], &open) != nil {
+					res = fail("rig-connect", fmt.Sprintf("websocket open packet %q %v", trunc(b, 120), err))
+					return
+				}
+				announced = open.MaxPayload
+			} else {
+				// the session starts on long-polling and is upgraded by hand: probe, answer, upgrade packet
+				resp, err := hc.Get("http://x/engine.io/?EIO=4&transport=polling")
+				if err != nil {
+					res = fail("rig-connect", "handshake: "+err.Error())
+					return
+				}
+				b, _ := io.ReadAll(resp.Body)
+				resp.Body.Close()
+				var open struct {
+					Sid        string `json:"sid"`
+					MaxPayload int64  `json:"maxPayload"`
+				}
+				if len(b) < 2 || json.Unmarshal(b[1:], &open) != nil || open.Sid == "" {
+					res = fail("rig-connect", fmt.Sprintf("handshake body %q", trunc(b, 120)))
+					return
+				}
+				announced = open.MaxPayload
+				conn, _, err = websocket.Dial(ctx, "ws://x/engine.io/?EIO=4&transport=websocket&sid="+open.Sid, &websocket.DialOptions{HTTPClient: hc})
+				if err != nil {
+					res = fail("rig-connect", "websocket dial for the upgrade: "+err.Error())
+					return
+				}
+				conn.SetReadLimit(-1)
+				cleanup = append(cleanup, func() { conn.CloseNow() })
+				_ = conn.Write(ctx, websocket.MessageText, []byte("2probe"))
+				_, pong, err := conn.Read(ctx)
+				if err != nil || string(pong) != "3probe" {
+					res = fail("rig-connect", fmt.Sprintf("upgrade probe answered %q %v", trunc(pong, 40), err))
+					return
+				}
+				_ = conn.Write(ctx, websocket.MessageText, []byte("5"))
+				settle(100 * time.Millisecond)
 			}
-			conn.SetReadLimit(-1)
-			cleanup = append(cleanup, func() { conn.CloseNow() })
-			_, b, err := conn.Read(ctx)
-			var open struct {
-				MaxPayload int64 `json:"maxPayload"`
-			}
-			if err != nil || len(b) < 2 || json.Unmarshal(b[1:], &open) != nil {
-				res = fail("rig-connect", fmt.Sprintf("websocket open packet %q %v", trunc(b, 120), err))
-				return
-			}
-			announced = open.MaxPayload
 			if !checkAnnounced() {
 				return
 			}
+			var err error
 			for i := 0; i < c.Before; i++ {
 				_ = conn.Write(ctx, websocket.MessageText, []byte("4small"))
 			}
@@ -285,7 +323,7 @@ func evalC13l(c c13lCase) (f *Failure, nontrivial bool) {
 
 func genC13lCase(t *rapid.T) c13lCase {
 	c := c13lCase{Limit: rapid.SampledFrom([]int64{100, 1000, 40000, 0, -1}).Draw(t, "limit"),
-		Path:   rapid.SampledFrom([]string{"c2s-polling-length", "c2s-polling-chunked", "c2s-websocket", "s2c-polling", "s2c-websocket"}).Draw(t, "path"),
+		Path:   rapid.SampledFrom([]string{"c2s-polling-length", "c2s-polling-chunked", "c2s-websocket", "c2s-upgraded-websocket", "s2c-polling", "s2c-websocket"}).Draw(t, "path"),
 		Binary: rapid.Bool().Draw(t, "binary"), Before: rapid.IntRange(0, 2).Draw(t, "before")}
 	lim := c.Limit
 	if lim <= 0 {
@@ -319,7 +357,7 @@ func TestC13_Limits(t *testing.T) {
 	setT(t)
 	defer startWatchdog(t, 90*time.Second)()
 	ev := NewEv(t, "C13", c13lCheck, "rapid on the virtual-time network at Engine.IO level: MaxBufferSize in {100, 1000, 40000, default 1e6, disabled} x path {POST with Content-Length, POST with chunked body, "+
-		"WebSocket message (text / binary)} from hand-written peers, and server -> client over {long-polling, WebSocket} to the real client; message sizes limit +- 12, limit/2, 2 x and 10 x the limit, "+
+		"WebSocket message (text / binary) on a session opened over WebSocket or upgraded to it by hand} from hand-written peers, and server -> client over {long-polling, WebSocket} to the real client; message sizes limit +- 12, limit/2, 2 x and 10 x the limit, "+
 		"32768 +- 12, 65536 +- 12, 0; 0..2 small messages first. Oracle (limit = maxPayload announced in the handshake, which must equal the configuration): a packet within the limit is delivered to the "+
 		"handler with its full length and nothing closes; a message more than one byte beyond the limit never reaches the handler and the connection is closed; with the limit disabled everything is accepted; "+
 		"server -> client messages within the limit arrive intact on both transports; non-trivial = size within 16 bytes of the limit or of 32 KiB, or > 32 KiB with the limit disabled")
